@@ -75,23 +75,50 @@ def actTok (m : State) (id : Nat) : Act → String
   | .add du _ arg => s!"new:{m.nextId + 1}:t:{du}:{arg}"
   | .panic => s!"panic:{id}"
 
-/-- run the callback in progress to its end (`cbStep`s), collecting log tokens -/
-def runCb : Nat → DS → List String → DS × List String
-  | 0, d, acc => (d, acc)
+/-- a `Cancel` inside a callback whose target's runtime timer is set for an instant that has
+already come (a timer the same callback created with no delay): the expiry goroutine may
+already have run, concurrently with the owner — then the object sits in the queue,
+cancelled, and is skipped later.  Both orders are behaviours of the model (`expire` may
+happen between any two `cbStep`s); which one happened shows in the queue length. -/
+def racyTarget (d : DS) (id : Nat) (acts : List Act) : Option Nat :=
+  let tgt : Option Nat := match acts with
+    | .cancelSelf :: _ => some id
+    | .cancel x :: _ => some x
+    | .cancelNewest :: _ => some d.m.nextId
+    | _ => none
+  match tgt with
+  | some x =>
+    if !d.rs && (d.m.tm x).armed && d.cand.any (fun c => c.1 == x && decide (c.2 ≤ d.m.now)) then some x else none
+  | none => none
+
+def fireOne (d : DS) (x : Nat) : DS :=
+  (stepM { d with cand := d.cand.filter (fun c => c.1 != x) } (.expire x)).1
+
+/-- run the callback in progress to its end (`cbStep`s), collecting log tokens; all outcomes,
+the one without early expiries first -/
+def runCbN : Nat → DS → List String → List (DS × List String)
+  | 0, d, acc => [(d, acc)]
   | fuel + 1, d, acc =>
     match d.m.cur with
-    | none => (d, acc)
+    | none => [(d, acc)]
     | some (id, acts) =>
       let acc := match acts with
         | a :: _ => acc ++ [actTok d.m id a]
         | [] => acc
-      runCb fuel (stepM d .cbStep).1 acc
+      let plain := runCbN fuel (stepM d .cbStep).1 acc
+      match racyTarget d id acts with
+      | some x => plain ++ runCbN fuel (stepM (fireOne d x) .cbStep).1 acc
+      | none => plain
 
 /-- the consumer takes queue element `i` and calls `Do` -/
-def runDo (d : DS) (i : Nat) : DS × List String :=
+def runDoN (d : DS) (i : Nat) : List (DS × List String) :=
   let (d, evs) := stepM d (.doNext i)
-  let (d, toks) := runCb 100000 d (evs.filterMap evTok)
-  (settle d, toks)
+  (runCbN 100000 d (evs.filterMap evTok)).map fun (d, toks) => (settle d, toks)
+
+def runDo (d : DS) (i : Nat) : DS × List String :=
+  match runDoN d i with
+  | r :: _ => r
+  | [] => (d, [])
 
 /-- entries whose object is cancelled are received and skipped without any trace -/
 def dropCancelled (d : DS) : DS :=
@@ -233,15 +260,36 @@ def exec (d : DS) (line : String) (hints : List Nat) : DS × String :=
       (d, s!"pop={id} ev={joinWith ";" toks} q={d.qlen}")
   | _ => (d, "bad-op")
 
+/-- all outcomes of one op line (only a manual `do` can have more than one) -/
+def execN (d : DS) (line : String) (hints : List Nat) : List (DS × String) :=
+  let ws := words line
+  if ws.head? == some "do" && !d.rs then
+    match d.m.queue with
+    | [] => [exec d line hints]
+    | hd :: _ =>
+      let id := match hints with
+        | h :: _ => if d.m.queue.contains h then h else hd
+        | [] => hd
+      let i := d.m.queue.idxOf id
+      if d.tags[i]? != d.tags[0]? then [exec d line hints] else
+      (runDoN d i).map fun (d, toks) => (d, s!"pop={id} ev={joinWith ";" toks} q={d.qlen}")
+  else [exec d line hints]
+
 def modelStep (d : DS) (line : String) : DS × String := exec d line []
 
-def acceptStep (d : DS) (line : String) : DS × String :=
+/-- acceptance: the set of model states compatible with everything observed so far -/
+def acceptStep (ds : List DS) (line : String) : List DS × String :=
   match line.splitOn "\t" with
   | [op, obs] =>
     let hints := if (words op).head? == some "do" then ((kvNat (words obs) "pop").map ([·])).getD [] else cbIdsOf obs
-    let (d', want) := exec d op hints
-    (d', if want == obs then "ok" else "REJECT want=" ++ want)
-  | _ => (d, "REJECT bad-line")
+    if (words op).head? == some "reset" then ([(exec {} op []).1], if obs == "ok" then "ok" else "REJECT want=ok") else
+    let outs := ds.flatMap fun d => execN d op hints
+    let good := outs.filter fun o => o.2 == obs
+    match good, outs with
+    | _ :: _, _ => ((good.map (·.1)).take 64, "ok")
+    | [], o :: _ => ([o.1], "REJECT want=" ++ o.2)
+    | [], [] => (ds, "REJECT no-model-state")
+  | _ => (ds, "REJECT bad-line")
 
 /-! ### the property predicate on implementation observations (independent of the model) -/
 
@@ -263,6 +311,7 @@ structure SS where
   tis : List TI := []
   viol : Option String := none
   curT : Nat := 0          -- time of the callback whose log is being read
+  lenient : Bool := false  -- the observation is cut short (runaway): ids may be unknown
   deriving Inhabited
 
 def SS.find (s : SS) (id : Nat) : Option TI := s.tis.find? (·.id == id)
@@ -288,7 +337,7 @@ def specTok (s : SS) (tok : String) : SS :=
       | some id, some t =>
         let s := { s with curT := t }
         match s.find id with
-        | none => s.flag "C14/unknown-timer-fired" s!"callback of timer {id} which was never created"
+        | none => if s.lenient then s else s.flag "C14/unknown-timer-fired" s!"callback of timer {id} which was never created"
         | some ti =>
           let s := if ti.cancelled then s.flag "C14/callback-after-cancel" s!"timer {id} ran at {t} after it had been cancelled" else s
           let s := if ti.period == 0 && ti.count ≥ 1 then s.flag "C14/oneshot-fired-twice" s!"one-shot timer {id} ran again at {t}" else s
@@ -330,7 +379,7 @@ def specStep (s : SS) (line : String) : SS × String :=
       (s, "VIOLATION C14/panic-escaped a panic left the timer manager / the consumer died at: " ++ op)
     else if ws.head? == some "reset" then ({ rs := (kvNat ws "rs").getD 0 == 1 }, "ok")
     else
-      let s := { s with curT := s.now }
+      let s := { s with curT := s.now, lenient := obs.startsWith "runaway" }
       -- the operation itself
       let s := match ws.head? with
         | some "after" | some "add" =>
@@ -369,8 +418,12 @@ def specStep (s : SS) (line : String) : SS × String :=
           let od := overdue s
           if !s.stopped && q < qcap && od.length > q then
             let ti : TI := od.headD default
-            s.flag (if ti.period == 0 then "C14/oneshot-lost" else "C14/repeat-not-rearmed")
-              s!"timer {ti.id} is overdue at {s.now} and not queued (queue length {q}, overdue {od.length})"
+            if q == 0 then
+              s.flag (if ti.period == 0 then "C14/oneshot-lost" else "C14/repeat-not-rearmed")
+                s!"timer {ti.id} is overdue at {s.now} and the queue is empty"
+            else
+              s.flag "C14/timer-lost"
+                s!"{od.length} timers are overdue at {s.now} ({joinWith "," (od.map fun (t : TI) => toString t.id)}) but only {q} objects are queued"
           else s
         | none =>
           if obs == "empty" && !s.stopped then
@@ -378,6 +431,7 @@ def specStep (s : SS) (line : String) : SS × String :=
             | ti :: _ => s.flag (if ti.period == 0 then "C14/oneshot-lost" else "C14/repeat-not-rearmed") s!"timer {ti.id} is overdue at {s.now} and the queue is empty"
             | [] => s
           else s
+      let s := if obs.startsWith "runaway" then s.flag "C14/runaway-callbacks" "callbacks kept firing without the system ever becoming quiescent" else s
       match s.viol with
       | some v => (s, "VIOLATION " ++ v)
       | none => (s, "ok")
@@ -389,5 +443,5 @@ open Cell2v.Driver in
 def main (args : List String) : IO Unit :=
   match args with
   | ["spec"] => runLoop Cell2v.Driver.C14.specStep {}
-  | ["accept"] => runLoop Cell2v.Driver.C14.acceptStep {}
+  | ["accept"] => runLoop Cell2v.Driver.C14.acceptStep [{}]
   | _ => runLoop Cell2v.Driver.C14.modelStep {}
